@@ -9,6 +9,7 @@ import (
 
 	"semaverif/internal/core"
 	"semaverif/internal/load"
+	"semaverif/internal/lockset"
 	"semaverif/internal/ssax"
 )
 
@@ -113,7 +114,7 @@ func inLoop(b *ssa.BasicBlock) bool {
 	return false
 }
 
-func Degree(w *load.World, c *core.Collector) {
+func Degree(w *load.World, ls *lockset.Result, c *core.Collector) {
 	props := []string{"C10"}
 	n := 0
 	for _, f := range w.Fns {
@@ -193,6 +194,21 @@ func Degree(w *load.World, c *core.Collector) {
 								continue
 							}
 						}
+						// check and act in one critical section: the length must be read with the node's
+						// edge lock held for writing, as it is at the add (a decision taken under the read
+						// lock is stale once the lock is re-taken for writing)
+						if ls != nil {
+							const cls = "vamana.graphNode.edgesMu"
+							addMode := ls.HeldAt(call)[cls]
+							var lenInstr ssa.Instruction
+							if li, ok := gd.lenOf.(ssa.Instruction); ok {
+								lenInstr = li
+							}
+							if addMode == lockset.W && lenInstr != nil && ls.HeldAt(lenInstr)[cls] != lockset.W {
+								how = "the length that decides whether the node is full is read without the node's edge lock held for writing, the edge is added under the write lock: two workers can both see room and both add"
+								continue
+							}
+						}
 						if gd.k >= need {
 							bounded, how = true, fmt.Sprintf("behind a guard with slack %d", gd.k)
 						} else {
@@ -259,4 +275,133 @@ func clearedBefore(f *ssa.Function, add *ssa.Call) bool {
 		}
 	}
 	return false
+}
+
+// ------------------------------------------------------- PUBLISH / MONOTONE
+//
+// Two small ordering clauses of the graph index that concurrent readers rely on:
+//
+//	publish-after-init  a node's "neighbours are loaded" flag is set only after the neighbour list has
+//	                    been stored (readers test the flag without a lock and then use the list): every
+//	                    Store(true) / CompareAndSwap(_, true) on graphNode.isNeighLoaded is dominated by
+//	                    a store to graphNode.neighbours of the same node in the same function  (C09)
+//	max-id-monotone     the recorded maximum node id only ever grows: outside the constructor every
+//	                    Store on IndexVamana.maxNodeId is behind `x > maxNodeId.Load()` for the value
+//	                    stored, or stores max(x, Load())                                             (C10)
+
+func GraphOrdering(w *load.World, c *core.Collector) {
+	nFlag, nMax := 0, 0
+	for _, f := range w.Fns {
+		if load.PkgPath(f) != load.Mod+"/shard/index/vamana" {
+			continue
+		}
+		for _, b := range f.Blocks {
+			for _, in := range b.Instrs {
+				call, ok := in.(*ssa.Call)
+				if !ok {
+					continue
+				}
+				g := call.Call.StaticCallee()
+				if g == nil || len(call.Call.Args) == 0 {
+					continue
+				}
+				fld := fieldOfAddr(call.Call.Args[0])
+				switch {
+				case fld == "vamana.graphNode.isNeighLoaded" && (g.String() == "(*sync/atomic.Bool).Store" || g.String() == "(*sync/atomic.Bool).CompareAndSwap" || g.String() == "(*sync/atomic.Bool).Swap"):
+					setsTrue := false
+					for _, a := range call.Call.Args[1:] {
+						if v, isC := ssax.ConstBool(a); isC && v {
+							setsTrue = true
+						}
+					}
+					if !setsTrue {
+						continue
+					}
+					nFlag++
+					node := call.Call.Args[0].(*ssa.FieldAddr).X
+					published := false
+					for _, bb := range f.Blocks {
+						for _, ii := range bb.Instrs {
+							st, ok := ii.(*ssa.Store)
+							if !ok || fieldOfAddr(st.Addr) != "vamana.graphNode.neighbours" {
+								continue
+							}
+							if st.Addr.(*ssa.FieldAddr).X == node && ssax.Precedes(ii, in) {
+								published = true
+							}
+						}
+					}
+					key := "publish-after-init:" + load.FnKey(f)
+					if published {
+						c.Add("ORDERING", key, core.OK, w.At(in), "", "C09")
+					} else {
+						c.Add("ORDERING", key, core.Violation, w.At(in), "the node's neighbours-loaded flag is set before its neighbour list has been stored: another goroutine that sees the flag uses an empty or half-built list", "C09")
+					}
+				case fld == "vamana.IndexVamana.maxNodeId" && g.String() == "(*sync/atomic.Uint64).Store":
+					if _, fresh := ssax.Path(call.Call.Args[0]); fresh {
+						continue // constructor
+					}
+					nMax++
+					val := call.Call.Args[1]
+					okMono := false
+					// behind `val > maxNodeId.Load()`
+					for _, bb := range f.Blocks {
+						ifi, ok := bb.Instrs[len(bb.Instrs)-1].(*ssa.If)
+						if !ok {
+							continue
+						}
+						bo, ok := ifi.Cond.(*ssa.BinOp)
+						if !ok {
+							continue
+						}
+						isLoad := func(v ssa.Value) bool {
+							lc, ok := v.(*ssa.Call)
+							return ok && lc.Call.StaticCallee() != nil && lc.Call.StaticCallee().String() == "(*sync/atomic.Uint64).Load" && fieldOfAddr(lc.Call.Args[0]) == "vamana.IndexVamana.maxNodeId"
+						}
+						same := func(a, b ssa.Value) bool {
+							if a == b {
+								return true
+							}
+							pa, _ := ssax.Path(a)
+							pb, _ := ssax.Path(b)
+							return pa == pb
+						}
+						edge := -1
+						switch {
+						case bo.Op == token.GTR && same(bo.X, val) && isLoad(bo.Y), bo.Op == token.LSS && isLoad(bo.X) && same(bo.Y, val):
+							edge = 0
+						case bo.Op == token.LEQ && same(bo.X, val) && isLoad(bo.Y), bo.Op == token.GEQ && isLoad(bo.X) && same(bo.Y, val):
+							edge = 1
+						}
+						if edge >= 0 && ssax.OnlyViaEdge(bb, edge, b) {
+							okMono = true
+						}
+					}
+					if mc, ok := val.(*ssa.Call); ok {
+						if bi, ok := mc.Call.Value.(*ssa.Builtin); ok && bi.Name() == "max" {
+							for _, a := range mc.Call.Args {
+								if lc, ok := a.(*ssa.Call); ok && lc.Call.StaticCallee() != nil && lc.Call.StaticCallee().String() == "(*sync/atomic.Uint64).Load" {
+									okMono = true
+								}
+							}
+						}
+					}
+					key := "max-id-monotone:" + load.FnKey(f)
+					if okMono {
+						c.Add("ORDERING", key, core.OK, w.At(in), "", "C10")
+					} else {
+						c.Add("ORDERING", key, core.Violation, w.At(in), "the recorded maximum node id is overwritten without having been compared with the value it replaces: a batch of small ids lowers it below ids that are in use", "C10")
+					}
+				}
+			}
+		}
+	}
+	c.Count("neighbour_flag_sets", nFlag)
+	c.Count("max_node_id_stores", nMax)
+	if nFlag < 2 {
+		c.Add("ORDERING", "anchor:neighbour-flag", core.Undecided, "", fmt.Sprintf("found %d sets of the neighbours-loaded flag, expected at least 2", nFlag), "C09")
+	}
+	if nMax < 1 {
+		c.Add("ORDERING", "anchor:max-node-id", core.Undecided, "", "no update of the recorded maximum node id found", "C10")
+	}
 }
